@@ -265,8 +265,10 @@ impl<'a, T: IteTable<'a, BddPtr<'a>> + Default> RobddBuilder<'a, T> {
             return bdd;
         }
 
+        let var = self.order.borrow().var_at_level(current);
         match bdd {
-            BddPtr::Reg(node) => {
+            // only descend into a node that decides the variable of this level
+            BddPtr::Reg(node) if node.var == var => {
                 let smoothed_node = BddNode::new(
                     node.var,
                     self.smooth_helper(node.low, current + 1, total),
@@ -275,8 +277,8 @@ impl<'a, T: IteTable<'a, BddPtr<'a>> + Default> RobddBuilder<'a, T> {
                 self.get_or_insert(smoothed_node)
             }
             BddPtr::Compl(node) => self.smooth_helper(BddPtr::Reg(node), current, total).neg(),
-            BddPtr::PtrTrue | BddPtr::PtrFalse => {
-                let var = self.order.borrow().var_at_level(current);
+            // a constant, or a node further down the order: this level is skipped
+            BddPtr::Reg(_) | BddPtr::PtrTrue | BddPtr::PtrFalse => {
                 let smoothed_node = BddNode::new(
                     var,
                     self.smooth_helper(bdd, current + 1, total),
